@@ -16,6 +16,9 @@ MUTATORS = {
     "insert", "sort", "setdefault", "popitem", "appendleft", "popleft",
 }
 
+_UFDIV = z3.Function("pyfloordiv", z3.IntSort(), z3.IntSort(), z3.IntSort())
+_UFMOD = z3.Function("pymod", z3.IntSort(), z3.IntSort(), z3.IntSort())
+
 card_cache = {}
 
 
@@ -612,6 +615,14 @@ class ExprMixin:
             return pymod(x, y)
         return self.uf_mod(x, y)
 
+    def uf_div(self, x, y):
+        self.used_models.add("// with symbolic divisor: uninterpreted, facts only through lemmas")
+        return _UFDIV(x, y)
+
+    def uf_mod(self, x, y):
+        self.used_models.add("% with symbolic divisor: uninterpreted, facts only through lemmas")
+        return _UFMOD(x, y)
+
     def float_binop(self, op, a, b, st, node):
         raise Unsupported("float arithmetic (enable vf.floats)")
 
@@ -653,9 +664,25 @@ class ExprMixin:
         lo = self.to_int(self.ev(sl.lower, st), st, node) if sl.lower is not None else None
         hi = self.to_int(self.ev(sl.upper, st), st, node) if sl.upper is not None else None
         lo, hi = self.clamp_slice(n, lo, hi)
-        i = z3.Int("i!sl")
-        arr = z3.Lambda([i], z3.Select(ty.arr(base.t), i + lo))
-        return SV(ty.mk(arr, z3.If(hi > lo, hi - lo, 0)), ty)
+        if self.spec_mode:
+            i = z3.Int("i!sl")
+            arr = z3.Lambda([i], z3.Select(ty.arr(base.t), i + lo))
+            return SV(ty.mk(arr, z3.If(hi > lo, hi - lo, 0)), ty)
+        # code mode: a fresh sequence characterised in both directions, so that E-matching can move
+        # between indices of the slice and indices of the base (the shifted index term is created)
+        # name the clamped bounds so that (i - lo) + lo normalises to i inside instantiations
+        lo_c, hi_c = z3.Int(fresh_name("lo")), z3.Int(fresh_name("hi"))
+        st.assume(lo_c == lo)
+        st.assume(hi_c == hi)
+        lo, hi = lo_c, hi_c
+        r = fresh(ty, "slice")
+        ra, rn = ty.arr(r.t), ty.len(r.t)
+        barr = ty.arr(base.t)
+        j, i2 = z3.Int(fresh_name("j")), z3.Int(fresh_name("i"))
+        st.assume(rn == z3.If(hi > lo, hi - lo, 0))
+        st.assume(z3.ForAll([j], z3.Implies(z3.And(0 <= j, j < rn), z3.Select(ra, j) == z3.Select(barr, j + lo)), patterns=[z3.Select(ra, j)]))
+        st.assume(z3.ForAll([i2], z3.Implies(z3.And(lo <= i2, i2 < hi), z3.Select(ra, i2 - lo) == z3.Select(barr, i2)), patterns=[z3.Select(barr, i2)]))
+        return r
 
     def ev_Attribute(self, node, st, want):
         base = self.ev(node.value, st)
